@@ -32,6 +32,13 @@
  *       count grew), oz = the originZone field of the queued copies and of the message, ts = 1 iff the `ts` field equals
  *       the virtual clock, old = copies found on older connections, bad = queued texts that are not this message
  *
+ *   D <conn> <from> <originzone> <objzone> <kind> | a=<0|1> s=<eps> p=<0|1> oz=<zone|-> ts=<0|1> old=<n> bad=<n>
+ *       one NETWORK step: a raw JSON-RPC message `event::VerifC11` (field originZone as given, no ts) is handed to the
+ *       REAL JsonRpcConnection::MessageHandler of endpoint <from>'s connection; the handler registered for it does what
+ *       the cluster event handlers do (clusterevents.cpp: discard if origin->FromZone && !FromZone->CanAccessObject(obj),
+ *       else process and RelayMessage(origin, obj, fresh message, true)).  a = the event was processed; the rest as for R.
+ *       The model side is `deliver`: originOf, accept, relay.
+ *
  * Modes: gen --seed S --tier quick|thorough [--work DIR]     enumeration + seeded sampling
  *        ops FILE [--work DIR]                               replay T/R lines (text after `|` ignored)
  *        node FILE --work DIR --id K                         (internal) one process = one topology
@@ -44,6 +51,7 @@
 #include "base/tlsstream.hpp"
 #include "base/workqueue.hpp"
 #include "remote/apilistener.hpp"
+#include "remote/apifunction.hpp"
 #include "remote/endpoint.hpp"
 #include "remote/zone.hpp"
 #include "remote/jsonrpcconnection.hpp"
@@ -69,6 +77,8 @@ VH_ROB_MEMBER(OutQTag, JsonRpcConnection, std::vector<String>, m_OutgoingMessage
 VH_ROB_MEMBER(RelayQTag, ApiListener, WorkQueue, m_RelayQueue)
 VH_ROB_MEMBER(SyncQTag, ApiListener, WorkQueue, m_SyncQueue)
 VH_ROB_MEMBER(LogCountTag, ApiListener, size_t, m_LogMessageCount)
+typedef void MhFn(const Dictionary::Ptr&);
+VH_ROB_MEMBER(MhTag, JsonRpcConnection, MhFn, MessageHandler)
 }
 
 static void Die(const std::string& msg)
@@ -279,6 +289,28 @@ static void GenCases(const Topo& t0, int self, Rng& rng, size_t cap, std::vector
 			emit(connFor(rng.below(nconn)), o, objs[rng.below(objs.size())]);
 		}
 	}
+	/* network steps: every other endpoint as sender x originZone field x object zone, through the real MessageHandler */
+	if (nep > 1) {
+		std::vector<std::pair<std::string, std::string>> senders;
+		for (int e = 0; e < nep; e++) {
+			if (e == self) continue;
+			senders.push_back({ std::to_string(e), "-" });
+			if (t.zoneOf[e] == lz) for (int z = 0; z < nz; z++) senders.push_back({ std::to_string(e), std::to_string(z) });
+			else senders.push_back({ std::to_string(e), std::to_string((int)rng.below((uint64_t)nz)) });
+		}
+		auto emitD = [&](uint64_t m, const std::pair<std::string, std::string>& sd, int z) {
+			std::string conn = connFor(m);
+			int from = atoi(sd.first.c_str());
+			if (conn[from] == '0') conn[from] = '1';
+			out.push_back("D " + conn + " " + sd.first + " " + sd.second + " " + std::to_string(z) + " " + (rng.below(4) ? "z" : "u"));
+		};
+		size_t fullD = (size_t)nconn * senders.size() * (size_t)nz;
+		if (fullD <= cap / 2) {
+			for (uint64_t m = 0; m < nconn; m++) for (auto& sd : senders) for (int z = 0; z < nz; z++) emitD(m, sd, z);
+		} else {
+			for (size_t i = 0; i < cap / 2; i++) emitD(rng.below(nconn), senders[rng.below(senders.size())], (int)rng.below((uint64_t)nz));
+		}
+	}
 }
 
 /* endpoint table for a forest: `counts[z]` endpoints per zone, indices (= name ranks) dealt by a seeded shuffle */
@@ -368,6 +400,8 @@ static JsonRpcConnection::Ptr l_Anon;
 static std::vector<int> l_State;                             /* attached connections per endpoint: 0, 1, 2 */
 static std::vector<User::Ptr> l_Users;                       /* per zone, + one without zone */
 static double l_Now = 200000;
+static int l_HandlerAccepted = 0;
+static Dictionary::Ptr l_LastRelayed;
 static long l_Tick = 0;
 
 static std::string ZoneName(int z) { return "z" + std::to_string(z); }
@@ -517,6 +551,22 @@ static void BuildNode(const std::string& work, const std::string& id)
 		if (z < nz && u->GetZone() != l_Zones[z]) Die("user zone not resolved");
 		l_Users.push_back(u);
 	}
+	/* what a cluster event handler plus its signal handler do (clusterevents.cpp:97-183 and siblings) */
+	ApiFunction::Register("event::VerifC11", new ApiFunction([](const MessageOrigin::Ptr& origin, const Dictionary::Ptr& params) -> Value {
+		Endpoint::Ptr endpoint = origin->FromClient->GetEndpoint();
+		if (!endpoint) return Empty;
+		int z = (int)(double)params->Get("zone");
+		String kind = params->Get("kind");
+		ConfigObject::Ptr obj;
+		if (kind == "z") obj = l_Zones[z]; else obj = l_Users[z];
+		if (origin->FromZone && !origin->FromZone->CanAccessObject(obj)) return Empty;
+		l_HandlerAccepted++;
+		Dictionary::Ptr np = new Dictionary({ { "n", (double)l_Tick } });
+		Dictionary::Ptr msg = new Dictionary({ { "jsonrpc", "2.0" }, { "method", "event::VerifC11" }, { "params", np } });
+		l_LastRelayed = msg;
+		ApiListener::GetInstance()->RelayMessage(origin, obj, msg, true);
+		return Empty;
+	}));
 	Sync();
 	SwitchIdentity(l_T.self);
 }
@@ -570,7 +620,24 @@ static std::vector<std::vector<String>> DrainAll(const std::vector<JsonRpcConnec
 struct Case {
 	std::string conn, client, fromzone, objzone, kind;
 	int log;
+	bool deliver = false;      /* D line: client = sending endpoint, fromzone = the message's originZone field */
 };
+
+static bool ParseDeliver(const std::vector<std::string>& w, Case& c)
+{
+	if (w.size() != 6 || w[0] != "D") return false;
+	c.deliver = true;
+	c.conn = w[1]; c.client = w[2]; c.fromzone = w[3]; c.objzone = w[4]; c.kind = w[5];
+	c.log = 1;
+	int nz = (int)l_T.parent.size(), nep = (int)l_T.zoneOf.size();
+	if ((int)c.conn.size() != nep) return false;
+	auto isIdx = [](const std::string& s, int n) { return !s.empty() && s.find_first_not_of("0123456789") == std::string::npos && atoi(s.c_str()) < n; };
+	if (!isIdx(c.client, nep) || atoi(c.client.c_str()) == l_T.self) return false;
+	if (c.fromzone != "-" && !isIdx(c.fromzone, nz)) return false;
+	if (!isIdx(c.objzone, nz)) return false;
+	if (c.kind != "z" && c.kind != "u") return false;
+	return true;
+}
 
 static bool ParseCase(const std::vector<std::string>& w, Case& c)
 {
@@ -605,23 +672,34 @@ static void RunCase(const Case& c)
 	DrainAll(conns);
 	for (auto& ep : l_Eps) ep->SetLocalLogPosition(0);
 
-	MessageOrigin::Ptr origin;
-	if (c.client != "n") {
-		origin = new MessageOrigin();
-		if (c.client == "a") origin->FromClient = l_Anon;
-		else if (c.client != "-") origin->FromClient = l_New[atoi(c.client.c_str())];
-		if (c.fromzone != "-") origin->FromZone = l_Zones[atoi(c.fromzone.c_str())];
-	}
-	ConfigObject::Ptr secobj;
-	if (c.kind == "z") secobj = l_Zones[atoi(c.objzone.c_str())];
-	else if (c.kind == "u") secobj = c.objzone == "-" ? l_Users[nz] : l_Users[atoi(c.objzone.c_str())];
-
-	Dictionary::Ptr params = new Dictionary({ { "n", (double)l_Tick } });
-	Dictionary::Ptr message = new Dictionary({ { "jsonrpc", "2.0" }, { "method", "event::VerifC11" }, { "params", params } });
-
 	ApiListener *l = l_Listener.get();
 	size_t before = l->*get(LogCountTag());
-	l->RelayMessage(origin, secobj, message, c.log != 0);
+	Dictionary::Ptr message;
+	l_HandlerAccepted = 0;
+	l_LastRelayed = nullptr;
+	if (c.deliver) {
+		Dictionary::Ptr params = new Dictionary({ { "n", (double)l_Tick }, { "zone", (double)atoi(c.objzone.c_str()) }, { "kind", String(c.kind) } });
+		Dictionary::Ptr raw = new Dictionary({ { "jsonrpc", "2.0" }, { "method", "event::VerifC11" }, { "params", params } });
+		if (c.fromzone != "-") raw->Set("originZone", String(ZoneName(atoi(c.fromzone.c_str()))));
+		JsonRpcConnection *conn = l_New[atoi(c.client.c_str())].get();
+		(conn->*get(MhTag()))(raw);
+		message = l_LastRelayed;
+	} else {
+		MessageOrigin::Ptr origin;
+		if (c.client != "n") {
+			origin = new MessageOrigin();
+			if (c.client == "a") origin->FromClient = l_Anon;
+			else if (c.client != "-") origin->FromClient = l_New[atoi(c.client.c_str())];
+			if (c.fromzone != "-") origin->FromZone = l_Zones[atoi(c.fromzone.c_str())];
+		}
+		ConfigObject::Ptr secobj;
+		if (c.kind == "z") secobj = l_Zones[atoi(c.objzone.c_str())];
+		else if (c.kind == "u") secobj = c.objzone == "-" ? l_Users[nz] : l_Users[atoi(c.objzone.c_str())];
+
+		Dictionary::Ptr params = new Dictionary({ { "n", (double)l_Tick } });
+		message = new Dictionary({ { "jsonrpc", "2.0" }, { "method", "event::VerifC11" }, { "params", params } });
+		l->RelayMessage(origin, secobj, message, c.log != 0);
+	}
 	Sync();
 	size_t after = l->*get(LogCountTag());
 	auto queues = DrainAll(conns);
@@ -632,8 +710,8 @@ static void RunCase(const Case& c)
 		if (s.GetLength() < 2 || s[0] != 'z') return "?";
 		return std::string(s.CStr() + 1);
 	};
-	std::string oz = zoneTok(message->Get("originZone"));
-	bool tsOk = message->Contains("ts") && (double)message->Get("ts") == l_Now;
+	std::string oz = message ? zoneTok(message->Get("originZone")) : std::string("-");
+	bool tsOk = !message || (message->Contains("ts") && (double)message->Get("ts") == l_Now);
 	std::vector<int> sent, skipped;
 	int old = 0, bad = 0;
 	for (size_t i = 0; i < queues.size(); i++) {
@@ -654,9 +732,14 @@ static void RunCase(const Case& c)
 		if (p == l_Now) skipped.push_back(e);
 		else if (p != 0) bad++;
 	}
-	printf("R %s %s %s %s %s %d | s=%s k=%s p=%d oz=%s ts=%d old=%d bad=%d\n", c.conn.c_str(), c.client.c_str(), c.fromzone.c_str(),
-		c.objzone.c_str(), c.kind.c_str(), c.log, ListTok(sent).c_str(), ListTok(skipped).c_str(), after > before ? 1 : 0,
-		oz.c_str(), tsOk ? 1 : 0, old, bad);
+	if (c.deliver)
+		printf("D %s %s %s %s %s | a=%d s=%s p=%d oz=%s ts=%d old=%d bad=%d\n", c.conn.c_str(), c.client.c_str(), c.fromzone.c_str(),
+			c.objzone.c_str(), c.kind.c_str(), l_HandlerAccepted, ListTok(sent).c_str(), after > before ? 1 : 0,
+			oz.c_str(), tsOk ? 1 : 0, old, bad);
+	else
+		printf("R %s %s %s %s %s %d | s=%s k=%s p=%d oz=%s ts=%d old=%d bad=%d\n", c.conn.c_str(), c.client.c_str(), c.fromzone.c_str(),
+			c.objzone.c_str(), c.kind.c_str(), c.log, ListTok(sent).c_str(), ListTok(skipped).c_str(), after > before ? 1 : 0,
+			oz.c_str(), tsOk ? 1 : 0, old, bad);
 }
 
 static int NodeMain(const std::string& file, const std::string& work, const std::string& id)
@@ -685,6 +768,10 @@ static int NodeMain(const std::string& file, const std::string& work, const std:
 		} else if (w[0] == "R") {
 			Case c;
 			if (!built || !ParseCase(w, c)) Die("bad R line: " + line);
+			RunCase(c);
+		} else if (w[0] == "D") {
+			Case c;
+			if (!built || !ParseDeliver(w, c)) Die("bad D line: " + line);
 			RunCase(c);
 		} else {
 			Die("bad line: " + line);
